@@ -278,5 +278,6 @@ pub fn subs() -> Vec<Box<dyn DynSub>> {
         sub(Sub { name: "c03.triples", source: Source::Gen(triple_strategy, 1_200_000, 10_000_000), oracle: triple_oracle, known: no_known, hang_is_violation: false }),
         sub(Sub { name: "c03.sort", source: Source::Gen(sort_strategy, 120_000, 1_000_000), oracle: sort_oracle, known: no_known, hang_is_violation: false }),
         sub(Sub { name: "c03.unit_cmp", source: Source::Gen(unitcmp_strategy, 1_200_000, 10_000_000), oracle: unitcmp_oracle, known: no_known, hang_is_violation: false }),
+        crate::props::fuzzsub::fc03(),
     ]
 }
